@@ -17,7 +17,7 @@ def run(m, chk):
         "(Bezier/spline x rational/non-rational exhaustively); the degree-0 branch returns a curve on the curve's limits built from 0 * ctrlpoints[0]; the result depends on knot vector, "
         "control points and — on rational branches — weights. The derivative values and the quotient-rule algebra are not decided."
     )
-    chk.decides = ["RESULT-HOMOG (the derivative of a rational curve is of degree 0 in the weights: numerator and denominator parts are divided out)", "PURE", "FRESH", "EXHAUSTIVE dispatch", "DEP-MAY", "degree-0 branch shape", 'INTERVAL (the derivative lives on the operand knot values)', 'ZIP-ALIGN (the product knot vector of the quotient rule pairs parallel lists with the same slice)', 'NO-LOSSY (the derivative is not passed through a tolerance-accepting simplifier)']
+    chk.decides = ["DTYPE-INHERIT (the derivative factors are not stored into an array whose dtype comes from the data)", "RESULT-HOMOG (the derivative of a rational curve is of degree 0 in the weights: numerator and denominator parts are divided out)", "PURE", "FRESH", "EXHAUSTIVE dispatch", "DEP-MAY", "degree-0 branch shape", 'INTERVAL (the derivative lives on the operand knot values)', 'ZIP-ALIGN (the product knot vector of the quotient rule pairs parallel lists with the same slice)', 'NO-LOSSY (the derivative is not passed through a tolerance-accepting simplifier)']
     chk.not_decided = ["D(u) = dC/du as values", "quotient rule algebra", "knot vector of the derivative"]
     for f in FUNCS:
         r.pure("PURE", D + f, ["curve"])
@@ -26,6 +26,9 @@ def run(m, chk):
 
     zip_align(r, chk, [D + "__new__"])
     no_lossy(r, chk, [D + "__new__"])
+    from .extra import dtype_inherit
+
+    dtype_inherit(r, chk, [D + "__new__"])
     from .homog import result_homog
 
     result_homog(r, chk, [D + "rational_bezier", D + "rational_spline"], floor=2)
